@@ -89,9 +89,9 @@ Qed.
 
 Section Proofs.
 Variable decode : list N -> option msg.
-Variable method_kind : list N -> N.
-Variable req_ok : list N -> bool.
-Variable service : list N -> list N -> option sres.
+Variable method_kind : N -> list N -> N.
+Variable req_ok : N -> list N -> bool.
+Variable service : N -> list N -> list N -> option sres.
 
 Notation dispatch := (dispatch method_kind req_ok service).
 Notation body_phase := (body_phase decode method_kind req_ok service).
@@ -141,14 +141,14 @@ Proof.
   unfold Model.dispatch. intros H.
   destruct (m_type m =? REQUEST).
   - unfold handle_request in H.
-    destruct (method_kind (m_name m) =? 3); [inversion H; constructor|].
-    destruct (method_kind (m_name m) =? 0).
+    destruct (method_kind (svc r) (m_name m) =? 3); [inversion H; constructor|].
+    destruct (method_kind (svc r) (m_name m) =? 0).
     + destruct (send_msg _ _ _ _) as [[r1 e1] b1] eqn:E. inversion H; subst.
       eapply send_msg_events; eauto.
-    + destruct (negb (req_ok (m_buf m))); [inversion H; constructor|].
+    + destruct (negb (req_ok (svc r) (m_buf m))); [inversion H; constructor|].
       destruct (supersede cl ok r (m_id m)) as [r1 evs1] eqn:E1.
       apply supersede_events in E1.
-      destruct (service (m_name m) (m_buf m)) as [res|].
+      destruct (service (svc r) (m_name m) (m_buf m)) as [res|].
       * destruct (request_complete _ _ _ _ _) as [r3 evs3] eqn:E3. inversion H; subst.
         apply request_complete_events in E3.
         apply Forall_app; split; [exact E1|]. constructor; [exact I|exact E3].
@@ -157,12 +157,12 @@ Proof.
     + unfold handle_response in H. destruct (lookup _ _); inversion H; subst; repeat constructor.
     + destruct (m_type m =? STREAM_REQUEST); [|inversion H; constructor].
       unfold handle_stream_request in H.
-      destruct (method_kind (m_name m) =? 3); [inversion H; constructor|].
-      destruct (method_kind (m_name m) =? 0).
+      destruct (method_kind (svc r) (m_name m) =? 3); [inversion H; constructor|].
+      destruct (method_kind (svc r) (m_name m) =? 0).
       * destruct (send_msg _ _ _ _) as [[r1 e1] b1] eqn:E. inversion H; subst.
         eapply send_msg_events; eauto.
-      * destruct (negb (method_kind (m_name m) =? 2)); [inversion H; constructor|].
-        destruct (negb (req_ok (m_buf m))); inversion H; subst; repeat constructor.
+      * destruct (negb (method_kind (svc r) (m_name m) =? 2)); [inversion H; constructor|].
+        destruct (negb (req_ok (svc r) (m_buf m))); inversion H; subst; repeat constructor.
 Qed.
 
 Lemma rpc_only_ok evs : Forall rpc_only evs -> evs_ok evs.
@@ -314,12 +314,13 @@ Qed.
 Lemma step_safe f r o f' r' evs :
   FI f -> step f r o = (f', r', evs) -> FI f' /\ evs_ok evs.
 Proof.
-  intros HFI H. destruct o as [bs ok|st nm rq ok|q res ok]; cbn [Model.step] in H.
+  intros HFI H. destruct o as [bs ok|st nm rq ok|q res ok|k]; cbn [Model.step] in H.
   - eapply feed_safe; eauto.
   - destruct (call_method _ _ _ _ _ _) as [r1 evs1] eqn:Ec. inversion H; subst.
     split; [exact HFI|]. apply rpc_only_ok. eapply call_method_events; eauto.
   - destruct (request_complete _ _ _ _ _) as [r1 evs1] eqn:Ec. inversion H; subst.
     split; [exact HFI|]. apply rpc_only_ok. eapply request_complete_events; eauto.
+  - inversion H; subst. split; [exact HFI|apply evs_ok_nil].
 Qed.
 
 Lemma run_safe ops : forall f r f' r' evs,
